@@ -183,8 +183,8 @@ impl VariantData<'_> {
             quote! {
                 impl<#ty_generic> #enum_name<#(#ty_generics),*> {
                     #doc
-                    pub fn #ctor(#ctor: #ty_generic) -> Self {
-                        Self::#name(#ctor)
+                    pub fn #ctor(_value: #ty_generic) -> Self {
+                        Self::#name(_value)
                     }
                 }
             }
